@@ -16,6 +16,7 @@ SENT = ["Ends.", "Really?", "Yes!", "(so.)", 'said."']
 HAZ = ["-", "+", "*", "#", "##", ">", "1.", "2)", "10.", "-x", "#tag", "1.5", "|", "a|b"]
 INLINE = ["*em*", "**strong**", "`code`", "`a b`", "[link](http://x.y)", "[l k](http://x.y/a_b \"T\")", "[w](http://x.y/t \"T  w\")", "![img](i.png)", "[t](http://r.ef/x)", "[t2](http://r.ef/x \"Other\")", "![i2](http://r.ef/x)",
           "<http://auto.link>", "http://bare.url/x", "www.example.com/p", "<https://e.com/o'neil>", "https://e.com/what's-new...x", "<b>", "</b>", "<span class=\"x y\">", "~~gone~~", "[^fn]", "[ref]",
+          "`超时timeout`", "[文档](http://x.y/部署v2/ \"标题T\")", "<span title=\"中文abc\">", "<http://x.y/部署v2>", "![img](i/图a.png)",
           "\\*lit\\*", "2023\\.", "7\\)", "\\# no", "\"quoted\"", "it's", "wait...", "a_b_c", "2*3*4", "&amp;", "x<y"]
 TAGS = ["{% t %}", "{% /t %}", "{{ v }}", "{# c #}", "<!-- h -->", "{% a x=\"1 2\" %}", "{% t %}{% /t %}", "<!-- a --><!-- /a -->",
         "{% p l=\"50% used\" %}", "{{ i % 2 }}", "{# 10 # 2 #}", "<!-- a - b -> c -->"]
@@ -89,6 +90,8 @@ def block(rnd, depth=0, with_tags=False, in_list=False):
             body = block(rnd, depth + 1, with_tags, in_list=True) if rnd.random() < 0.3 and depth < 2 and k != "task" else P()
             if rnd.random() < 0.25:
                 body += "\n\n" + (block(rnd, depth + 1, with_tags, in_list=True) if depth < 1 else P())
+            if k != "task" and i > 0 and rnd.random() < 0.06:
+                body = ""           # an empty item (bare marker) between others
             items.append(indent(body, marker, " " * (2 if k == "task" else len(marker))))
         # one marker char per list
         if k == "bullet":
@@ -143,6 +146,11 @@ def document(rnd, with_tags=False, nblocks=None, hazards=True):
         # an indented code block (no fence of its own) right after a heading, possibly holding fence-like lines
         blocks.insert(0, "    code line\n    " + rnd.choice(["more  code", " ```", "   ````", "```", "  ~~~", "it's"]))
         blocks.insert(0, "# Head")
+    # a heading directly followed (no blank line) by a table / list / quote / fence
+    for i in range(len(blocks) - 1):
+        if blocks[i].startswith("#") and "\n" not in blocks[i] and blocks[i + 1][:1] in "|-*+>`~1" and rnd.random() < 0.4:
+            blocks[i:i + 2] = [blocks[i] + "\n" + blocks[i + 1]]
+            break
     if blocks[0].startswith("---"):
         blocks[0] = "***"          # a leading '---' line would be (unclosed) frontmatter
     # footnote definitions only at the end of the document (Marko's footnote extension absorbs what follows)
